@@ -416,18 +416,24 @@ fn norm_msg(m: &str) -> String {
     out
 }
 
+/// source root of the code under test ("/repo/" unless VERIF_REPO points at a scratch copy)
+fn repo_root() -> String {
+    format!("{}/", std::env::var("VERIF_REPO").unwrap_or_else(|_| "/repo".to_string()).trim_end_matches('/'))
+}
+
 fn repo_frame() -> Option<String> {
     let bt = std::backtrace::Backtrace::force_capture().to_string();
     let lines: Vec<&str> = bt.lines().collect();
     for (i, l) in lines.iter().enumerate() {
         let t = l.trim();
         if let Some(rest) = t.strip_prefix("at ") {
-            if rest.starts_with("/repo/") || rest.contains("/repo/") && !rest.contains("/rustc/") {
+            let root = repo_root();
+            if rest.starts_with(&root) || rest.contains(&root) && !rest.contains("/rustc/") {
                 // symbol on the preceding line: "  12: winter_air::proof::..."
                 let sym = if i > 0 { lines[i - 1].trim() } else { "" };
                 let sym = sym.split_once(": ").map(|x| x.1).unwrap_or(sym);
                 let file = rest.rsplitn(3, ':').last().unwrap_or(rest);
-                let file = file.split("/repo/").last().unwrap_or(file);
+                let file = file.split(root.as_str()).last().unwrap_or(file);
                 return Some(format!("{}@{}", file, sym));
             }
         }
@@ -454,7 +460,7 @@ pub fn install_panic_hook() {
                 match cached {
                     Some(s) => s,
                     None => {
-                        let s = if let Some(rel) = file.split("/repo/").nth(1).filter(|_| file.starts_with("/repo/")) {
+                        let s = if let Some(rel) = file.strip_prefix(repo_root().as_str()) {
                             format!("{}|{}", rel, nm)
                         } else {
                             match repo_frame() {
